@@ -349,6 +349,26 @@ class CFG:
         ln = s.get('l', 0) or line_of(s)
         if k == 'block':
             return self.seq(s['s'], nxt, ctx)
+        if k == 'if' and not s.get('e') and not s.get('init') and not s.get('cv'):
+            # `if (C) flag = false;`  is  `flag = !(C) && flag;`  (and `= true` is `flag = (C) || flag;`):
+            # the same value on every path, with C evaluated exactly as before -- written as one
+            # assignment so that the flag carries the conjunction of the checks it has passed
+            th = s['t']
+            while isinstance(th, dict) and th.get('k') == 'block' and len(th.get('s', [])) == 1:
+                th = th['s'][0]
+            if isinstance(th, dict) and th.get('k') == 'bin' and th.get('op') == '=':
+                lhs, rhs = th['a'][0], strip_casts(th['a'][1])
+                if isinstance(lhs, dict) and lhs.get('k') == 'var' and lhs.get('t') == 'bool' and not lhs.get('p') and \
+                        isinstance(rhs, dict) and rhs.get('k') in ('bool', 'int') and not rhs.get('n'):
+                    val = bool(rhs.get('v'))
+                    cond = s['c']
+                    if not val:
+                        new = {'k': 'bin', 'op': '&&', 't': 'bool', 'a': [{'k': 'un', 'op': '!', 't': 'bool', 'a': [cond]}, dict(lhs)]}
+                    else:
+                        new = {'k': 'bin', 'op': '||', 't': 'bool', 'a': [cond, dict(lhs)]}
+                    n = self.new('stmt', {'k': 'bin', 'op': '=', 't': 'bool', 'a': [dict(lhs), new], 'l': ln}, ln)
+                    n.succ = [nxt]
+                    return n
         if k == 'if':
             t = self.build(s['t'], nxt, ctx)
             f = self.build(s['e'], nxt, ctx) if s.get('e') else nxt
@@ -572,11 +592,13 @@ def _same_expr(a, b):
     return a == b
 
 
-def desugar_iterator_loop(s):
+def desugar_iterator_loop(s, outer=None):
     """for (It it = X.begin(); it != X.end(); ++it) { ... *it ... }  is read as
     for (size_t it = 0; it < X.size(); it++) { ... X[it] ... }  when the iterator is only ever
     dereferenced in the body -- the same loop over the same elements, in the form every rule
-    already understands (canonical counter, element access)."""
+    already understands (canonical counter, element access).  A nested loop
+    for (It jt = X.begin(); jt != it; ++jt)  over the same container becomes  for (jt = 0; jt < it; jt++)."""
+    outer = outer or {}
     init, cond, inc, body = s.get('i'), s.get('c'), s.get('n'), s.get('b')
     if not (isinstance(init, dict) and init.get('k') == 'decl' and len(init.get('v', [])) == 1 and cond and inc and body is not None):
         return None
@@ -595,22 +617,33 @@ def desugar_iterator_loop(s):
         rhs = strip_casts(rhs['a'][0])
     if not (isinstance(lhs, dict) and lhs.get('k') == 'var' and lhs.get('id') == v['id']):
         return None
-    if not (isinstance(rhs, dict) and rhs.get('k') == 'mcall' and rhs.get('f', '').split('::')[-1] in ('end', 'cend') and _same_expr(rhs.get('o'), cont)):
+    cls = b['f'].rsplit('::', 1)[0]
+    if isinstance(rhs, dict) and rhs.get('k') == 'mcall' and rhs.get('f', '').split('::')[-1] in ('end', 'cend') and _same_expr(rhs.get('o'), cont):
+        bound = {'k': 'mcall', 'f': cls + '::size', 'o': copy.deepcopy(cont), 'a': [], 'fid': cls + '::size()const', 't': 'unsigned long', 'l': s.get('l', 0)}
+    elif isinstance(rhs, dict) and rhs.get('k') == 'var' and rhs.get('id') in outer and _same_expr(outer[rhs['id']], cont):
+        bound = {'k': 'var', 'n': rhs['n'], 'id': rhs['id'], 't': 'unsigned long'}      # the enclosing loop's position
+    else:
         return None
     i2 = strip_casts(inc)
     if not (isinstance(i2, dict) and i2.get('k') in ('opcall', 'un') and i2.get('op') in ('++', 'post++') and
             strip_casts(i2['a'][0]).get('k') == 'var' and strip_casts(i2['a'][0]).get('id') == v['id']):
         return None
-    cls = b['f'].rsplit('::', 1)[0]
     ok = [True]
+    inner_outer = dict(outer)
+    inner_outer[v['id']] = cont
 
-    def rew(x, deref_parent=False):
+    def rew(x):
         if isinstance(x, dict):
+            if x.get('k') == 'for':
+                ds = desugar_iterator_loop(x, inner_outer)
+                if ds is not None:
+                    return ds
             if x.get('k') in ('opcall', 'un') and x.get('op') == '*' and len(x.get('a', [])) == 1:
                 a0 = strip_casts(x['a'][0])
-                if isinstance(a0, dict) and a0.get('k') == 'var' and a0.get('id') == v['id']:
+                if isinstance(a0, dict) and a0.get('k') == 'var' and a0.get('id') in inner_outer:
+                    cexp = inner_outer[a0['id']]
                     return {'k': 'opcall', 'op': '[]', 'f': cls + '::operator[]',
-                            'a': [copy.deepcopy(cont), {'k': 'var', 'n': v['n'], 'id': v['id'], 't': 'unsigned long'}],
+                            'a': [copy.deepcopy(cexp), {'k': 'var', 'n': a0['n'], 'id': a0['id'], 't': 'unsigned long'}],
                             't': x.get('t'), 'l': x.get('l', 0)}
             if x.get('k') == 'var' and x.get('id') == v['id']:
                 ok[0] = False        # the iterator escapes (compared, copied, advanced): keep the loop as it is
@@ -623,10 +656,9 @@ def desugar_iterator_loop(s):
     if not ok[0]:
         return None
     ivar = {'k': 'var', 'n': v['n'], 'id': v['id'], 't': 'unsigned long'}
-    size = {'k': 'mcall', 'f': cls + '::size', 'o': copy.deepcopy(cont), 'a': [], 'fid': cls + '::size()const', 't': 'unsigned long', 'l': s.get('l', 0)}
     return {'k': 'for', 'l': s.get('l', 0),
             'i': {'k': 'decl', 'l': init.get('l', 0), 'v': [{'n': v['n'], 'id': v['id'], 't': 'unsigned long', 'init': {'k': 'int', 'v': 0, 't': 'int'}}]},
-            'c': {'k': 'bin', 'op': '<', 'a': [ivar, size], 't': 'bool', 'l': s.get('l', 0)},
+            'c': {'k': 'bin', 'op': '<', 'a': [ivar, bound], 't': 'bool', 'l': s.get('l', 0)},
             'n': {'k': 'un', 'op': 'post++', 'a': [dict(ivar)], 't': 'unsigned long', 'l': s.get('l', 0)},
             'b': body2}
 
